@@ -652,6 +652,12 @@ class Executor:
             if sat(q.pc): yield q, f(z3.If(k.t < 0, k.t + n, k.t))
             q = p.fork(z3.Not(inb))
             if sat(q.pc): yield q, Exc('IndexError', site)
+        elif o.sort == 'str' and k.sort == 'int':          # s[i]: one character, IndexError outside -len..len-1
+            n = z3.Length(o.t); inb = z3.And(k.t < n, k.t >= -n)
+            q = p.fork(inb)
+            if sat(q.pc): yield q, Str(z3.SubString(o.t, z3.If(k.t < 0, k.t + n, k.t), 1))
+            q = p.fork(z3.Not(inb))
+            if sat(q.pc): yield q, Exc('IndexError', site)
         elif o.sort == 'opaque':
             q = p.inexact(); yield q, Val('opaque', x=src)
             q = p.inexact(); yield q, Exc('<any>', site, exact=False)
